@@ -97,17 +97,21 @@ CLAIMS = {
 # additions made while hardening the packs (second session): rules re-used from neighbouring packs, new rules, thorough-tier witnesses
 EXTRA = {
  "C01": " Also re-uses C02's KEYS rule (strictly increasing keys, so that no pair is collapsed before the signature is checked). Deserialize: every result that can be Ok is from_str's own result up to error conversion.",
- "C03": " INV-PK additionally rests on C01's rule that CombinedKey::enr_to_public falls back to the ed25519 entry. Slice -> GenericArray conversions are panic sources; slices of hex strings of statically known length are discharged by a sub-string algebra; split_at / p[n..] after Header::decode(p) == Ok(h) by the header guard.",
- "C04": " Re-uses C02 KEYS, C09 BUILD/SIZED (whatever is returned fits the decoder's limit), C10 IDD/UNCOMP/FROM/DIGEST (the node id reported equals that of an independent parse) and the C13 cursor rules (through C12); the JSON string must be deserialised into an owned string.",
- "C05": " build() is analysed with its helpers spliced in (primitive steps: validator loop, content inserts, rlp_content(), sign_v4), a single-pass Builder::rlp_content is accepted through a length-mirror rule (every emission matched with its length()/len() term); re-uses C09 BUILD (size slack) and C10 UNCOMP/FROM/DIGEST. Thorough tier adds compile-fail witnesses W1-W4 (private fields, no &mut to record state, no public constructor, private helpers).",
- "C07": " Every successful exit of a core mutator passes through exactly one commit of the re-signed copy (a success that committed nothing is reported).",
- "C08": " Re-uses C05 TS/WRAP/BUILD (every commit and build stores the signer's public key last, validated first). Setters with an address-family parameter are partially evaluated per variant (kernel.assume), so a single store after the match is the same as one per arm.",
+ "C03": " The two `inv` rows are tied to the exact expression they were triaged for (Header::decode(..).expect in get(), K::enr_to_public(&self.content).expect in public_key()). INV-PK additionally rests on C01's rule that CombinedKey::enr_to_public falls back to the ed25519 entry. Slice -> GenericArray conversions are panic sources; slices of hex strings of statically known length are discharged by a sub-string algebra; split_at / p[n..] after Header::decode(p) == Ok(h) by the header guard.",
+ "C04": " Re-uses C05 TS/WRAP/SIGN and C01 PUBKEY (every record an update returns verifies under the key-type's own reader, else its encoding cannot be decoded again), C02 KEYS, C09 BUILD/SIZED (whatever is returned fits the decoder's limit), C10 IDD/UNCOMP/FROM/DIGEST (the node id reported equals that of an independent parse) and the C13 cursor rules (through C12); the JSON string must be deserialised into an owned string.",
+ "C05": " sign() (with compute_signature spliced in) stores exactly sign_v4(key, self.rlp_content()) into self.signature and only under id() == Some(\"v4\") - the fact every `signed(k)` typestate step takes for granted; re-uses C01 VERIFY/VERIFYV4/NOLAUNDER (the gate and the typestate rest on verify()/verify_v4 being real checks). build() is analysed with its helpers spliced in (primitive steps: validator loop, content inserts, rlp_content(), sign_v4), a single-pass Builder::rlp_content is accepted through a length-mirror rule (every emission matched with its length()/len() term); re-uses C09 BUILD (size slack) and C10 UNCOMP/FROM/DIGEST. Thorough tier adds compile-fail witnesses W1-W4 (private fields, no &mut to record state, no public constructor, private helpers).",
+ "C07": " Every successful exit of a core mutator passes through exactly one commit of the re-signed copy (a success that committed nothing is reported); no wrapper can return success from the Err outcome of the update it delegates to (swallowed failures).",
+ "C08": " Re-uses C05 TS/WRAP/BUILD/SIGN and C07's swallowed-failure rule; the id-and-key rule reads the primitive content inserts of build() with its helpers spliced in. Re-uses C05 TS/WRAP/BUILD (every commit and build stores the signer's public key last, validated first). Setters with an address-family parameter are partially evaluated per variant (kernel.assume), so a single store after the match is the same as one per arm.",
  "C11": " Re-uses C01 NOLAUNDER (no back-end normalises or re-parses signatures). decode_public must be the library parser's result up to error conversion (result_passthrough).",
  "C12": " Re-uses the C13 rules as CURSOR (decode leaves exactly the unread suffix, which from_str's trailing-data check relies on). The JSON string must be deserialised into an owned (or Cow) string. The base64 input may be alloy_rlp::encode(self) or a fresh buffer filled only by self.encode().",
- "C14": " Re-uses C07 ONCE (a setter that reports success performed exactly one committed update). Reachability flags are decided by a truth table over the presence of the two socket getters (paths contradicting each combination are cut, every reachable return evaluated).",
- "C15": " Because == ignores the content, coherence with pairs and encoding rests on the always-signed invariant: re-uses C05 TS/WRAP/VALID/INV-RLP, C06 ATOMIC, C09 BUILD and C10 IDD.",
+ "C14": " Re-uses C05 VALID/INV-RLP (every stored value is exactly one complete item of the key's class) and C07 ONCE (a setter that reports success performed exactly one committed update). Reachability flags are decided by a truth table over the presence of the two socket getters (paths contradicting each combination are cut, every reachable return evaluated).",
+ "C15": " Re-uses C12 FORM/encode and C01 PUBKEY (decode-after-encode image). Because == ignores the content, coherence with pairs and encoding rests on the always-signed invariant: re-uses C05 TS/WRAP/VALID/INV-RLP, C06 ATOMIC, C09 BUILD and C10 IDD.",
+ "C09": " The builder's size check is decided on build() with its helpers spliced in: len(P) + len(S) + c with P the payload of the object that is signed, taken after its last content write, and S the signature just computed; size() may also be the length mirror of encode()'s emissions or the default Encodable::length. Re-uses C07's swallowed-failure rule (a refusal is reported, not turned into Ok).",
+ "C10": " Re-uses C06 ATOMIC (the id also survives a failed update) and C05 BUILD (key stored last, on the object that is signed).",
+ "C13": " Re-uses C09 DECODE (the size limit tests the consumed item, not a quantity that includes the suffix).",
+ "C02": " Re-uses C01 PUBKEY (which entry each key type reads; CombinedKey: secp256k1, falling back to ed25519).",
  "C16": " Thorough tier adds compile-fail witness W5 (no public NodeId field).",
- "C17": " Every non-Ok result of an import is the library parser's own failure (derived from it or control-dependent on its Err; a length-only pre-check is subsumed), so no valid secret is refused. Thorough tier adds compile-fail witness W6 (CombinedKey has no Clone/Copy/serialisation).",
+ "C17": " Re-uses C01 PUBKEY for CombinedKey::enr_to_public (a record signed with an imported key reads that key back). Every non-Ok result of an import is the library parser's own failure (derived from it or control-dependent on its Err; a length-only pre-check is subsumed), so no valid secret is refused. Thorough tier adds compile-fail witness W6 (CombinedKey has no Clone/Copy/serialisation).",
 }
 
 checks = []
